@@ -106,6 +106,9 @@ def gen_ffi_wres(r, n, tier):
     """all four write callbacks x every WriteResult value (exhaustive; n is ignored)"""
     for op in WRITES:
         yield f"ffi wres {op} ok"
+        # success with an `exception` field that is not an enumerator (zero-initialised struct in C)
+        for k in (0, 7, 9, 99, 256, -1):
+            yield f"ffi wres {op} ok{k}"
         yield f"ffi wres {op} null"
         for e in MEXC:
             yield f"ffi wres {op} e{e}"
@@ -256,6 +259,10 @@ def gen_ffi_atomic(r, n, tier):
     yield "ffi atomic 125 1000000 200 2 d"
     yield "ffi atomic 16 1000000 200 4 w"
     yield "ffi atomic 100 1000000 200 1 w"
+    # a = all four point types: transactions set coils, discrete inputs, holding and input registers to
+    # one common value, the reads rotate over the four read functions
+    yield "ffi atomic 100 1000000 240 3 a"
+    yield "ffi atomic 125 1000000 200 2 da"
     if tier == "thorough":
         yield "ffi atomic 64 1000000 600 4 dw"
         yield "ffi atomic 2 1000000 600 8 dw"
